@@ -19,15 +19,26 @@ func c10floor(c *Ctx) {
 	n, ok := 0, true
 	for _, b := range fn.Blocks {
 		for _, in := range b.Instrs {
-			bo, isB := in.(*ssa.BinOp)
-			if !isB || (bo.Op != token.LSS && bo.Op != token.LEQ && bo.Op != token.GTR && bo.Op != token.GEQ) {
-				continue
-			}
 			var other ssa.Value
-			if k, isK := constIntOf(bo.Y); isK && k == 2 {
-				other = bo.X
-			} else if k, isK := constIntOf(bo.X); isK && k == 2 {
-				other = bo.Y
+			switch x := in.(type) {
+			case *ssa.BinOp:
+				if x.Op != token.LSS && x.Op != token.LEQ && x.Op != token.GTR && x.Op != token.GEQ {
+					continue
+				}
+				if k, isK := constIntOf(x.Y); isK && k == 2 {
+					other = x.X
+				} else if k, isK := constIntOf(x.X); isK && k == 2 {
+					other = x.Y
+				}
+			case *ssa.Call:
+				// the builtin form of the clamp: max(cpus, 2)
+				if an.IsBuiltinCall(x, "max") && len(x.Call.Args) == 2 {
+					if k, isK := constIntOf(x.Call.Args[1]); isK && k == 2 {
+						other = x.Call.Args[0]
+					} else if k, isK := constIntOf(x.Call.Args[0]); isK && k == 2 {
+						other = x.Call.Args[1]
+					}
+				}
 			}
 			if other == nil {
 				continue
